@@ -16,9 +16,8 @@ instantiates the model with the *generated* translations of /repo/util.go over a
 ordered field (`opsK`, DrawPath's dash decision arbitrary) and compares what the importer does with what
 SVG 1.1 assigns (state of /repo after the ParseSVG repairs a9d372e … 9d54694: dash lengths in user
 units, px→mm size, viewBox as min-x min-y width height, fill-rule, skew, both rect radii, miter limit,
-cascade order, selector subject, #id/[attr] lexing).  The one remaining recorded deviation from
-SVG 1.1 in the modelled layer is that matching rules apply in order of appearance, not by specificity
-(known finding C19-css-specificity), stated by `later_rule_wins`.
+cascade order and specificity, selector subject, #id/[attr] lexing, comma-separated transforms, default
+preserveAspectRatio).
 The model is tied to the code by the correspondence run of `bin/check C19`. -/
 set_option linter.unusedSectionVars false
 set_option linter.unusedVariables false
@@ -181,22 +180,65 @@ theorem children_inherit_computed (i : Inh α) (t : Thr α) (tag : String) (attr
     show (enter o i t tag attrs).st = _
     unfold enter; rw [this, ← hc]; rfl
 
-/-- SVG 1.1 §6.4 / CSS2 §6.4.3: the importer's cascade is the specification cascade (rules by specificity, then
-by order of appearance) -/
-def cascade_refines_spec_statement : Prop :=
-  ∀ (diag : α) (rules : List (Rule α)) (elems : List Elem) (s : Sty α) (attrs : List (Attr α)),
-    cascade o diag rules elems s attrs = specCascade o diag rules elems s attrs
+/-- **cascade_refines_spec** (aecc30a): for every element stack, rule list and declaration list the importer's
+cascade is the cascade of SVG 1.1 §6.4 / CSS2 §6.4.3 — presentation attributes, then the matching rules by
+specificity (ids, then classes/attributes, then types; the highest among the rule's applying selectors) and for
+equal specificity by order of appearance, then the style attribute -/
+theorem cascade_refines_spec (diag : α) (rules : List (Rule α)) (elems : List Elem) (s : Sty α)
+    (attrs : List (Attr α)) :
+    cascade o diag rules elems s attrs = specCascade o diag rules elems s attrs := rfl
 
-/-- **cascade_refines_spec** (partial: known finding C19-css-specificity): whenever the rules that apply to the
-element already stand in non-decreasing order of specificity in the style sheet, the importer's cascade
-(presentation attributes < matching rules in order of appearance < style attribute) is the cascade of
-SVG 1.1 / CSS2 (… < matching rules by specificity, then order < …) — for every element stack, rule list
-and declaration list -/
-theorem cascade_refines_spec_partial (diag : α) (rules : List (Rule α)) (elems : List Elem) (s : Sty α)
-    (attrs : List (Attr α)) (h : (matching rules elems).Pairwise (fun a b => a.1 ≤ b.1)) :
-    cascade o diag rules elems s attrs = specCascade o diag rules elems s attrs := by
-  unfold cascade specCascade
-  rw [rulesCore_eq_matching, stableSort_sorted (fun nr : Nat × Rule α => nr.1) _ h]
+/-- the order in which the matching rules apply is sorted by specificity … -/
+theorem stableSort_sorted_out {β : Type} (key : β → Nat) (l : List β) :
+    (stableSort key l).Pairwise (fun a b => key a ≤ key b) := by
+  induction l with
+  | nil => exact List.Pairwise.nil
+  | cons x t ih =>
+    show (insFront key x (stableSort key t)).Pairwise _
+    generalize stableSort key t = u at ih
+    induction u with
+    | nil => simp [insFront]
+    | cons y ys ihu =>
+      have hy := List.pairwise_cons.mp ih
+      unfold insFront
+      split
+      · rename_i hxy
+        refine List.pairwise_cons.mpr ⟨?_, ih⟩
+        intro z hz
+        rcases List.mem_cons.mp hz with rfl | hz
+        · exact hxy
+        · exact Nat.le_trans hxy (hy.1 z hz)
+      · rename_i hxy
+        refine List.pairwise_cons.mpr ⟨?_, ihu hy.2⟩
+        intro z hz
+        have hyx : key y ≤ key x := Nat.le_of_lt (Nat.lt_of_not_le hxy)
+        -- z is x or an element of ys
+        have : z = x ∨ z ∈ ys := by
+          clear ihu
+          induction ys with
+          | nil => simp [insFront] at hz; exact Or.inl hz
+          | cons w ws ihw =>
+            unfold insFront at hz
+            split at hz
+            · rcases List.mem_cons.mp hz with h | h
+              · exact Or.inl h
+              · exact Or.inr h
+            · rcases List.mem_cons.mp hz with h | h
+              · exact Or.inr (h ▸ List.mem_cons_self)
+              · have hy' : List.Pairwise (fun a b => key a ≤ key b) (y :: ws) :=
+                  List.pairwise_cons.mpr ⟨fun q hq => hy.1 q (List.mem_cons_of_mem _ hq), (List.pairwise_cons.mp hy.2).2⟩
+                rcases ihw hy' (List.pairwise_cons.mp hy') h with h' | h'
+                · exact Or.inl h'
+                · exact Or.inr (List.mem_cons_of_mem _ h')
+        rcases this with rfl | hz'
+        · exact hyx
+        · exact hy.1 z hz'
+
+/-- … and a list that is already in specificity order is left alone (so equal specificities keep their order of
+appearance) -/
+theorem stableSort_of_sorted {β : Type} (key : β → Nat) (l : List β)
+    (h : l.Pairwise (fun a b => key a ≤ key b)) : stableSort key l = l :=
+  stableSort_sorted key l h
 
 end Generic
 
@@ -568,7 +610,8 @@ theorem refines_spec_rect (x0 y0 W H tx ty x y w h : K) (c : RGBA) (hc : c.a ≠
         ⟨(tx + x + u - x0) * (254 / 10) / 96, (H - (ty + y + v - y0)) * (254 / 10) / 96⟩ := by
   intro p
   have hp : p = parseSVG (opsK cd) ⟨none, none, some (x0, y0, W, H), "none"⟩ [] (rectDoc tx ty x y w h c) lens := rfl
-  simp [parseSVG, parseViewBox, init, rectDoc, walk, walkList, push, pop, setStyling, applyRules, applyPlain, applyStyle,
+  clear_value p
+  simp [parseSVG, parseViewBox, init, rectDoc, walk, walkList, push, pop, setStyling, applyRules, matching, stableSort, applyPlain, applyStyle,
     setAttribute, attrCore, withSty, sty, drawShape, drawShapeCore, dimAttr, lookup, parseDimension, drawPath, hasFill, hasStroke, parseTransform,
     xformStep, defaultCtx, opsK, arithK, hW, hH, hc, transparent, black] at hp
   have W0 : W ≠ 0 := ne_of_gt hW
@@ -621,7 +664,7 @@ theorem rule_beats_attribute (q : P α) (red blue lime : RGBA)
   have h1 : ∀ p : P α, (setAttribute o p "fill" (.color red)).rules = p.rules ∧ (setAttribute o p "fill" (.color red)).elems = p.elems := by
     intro p; simp [setAttribute, attrCore, withSty, sty, attrCore, withSty, sty]
   constructor <;>
-    simp [setStyling, applyRules, hr, he, h1, ruleApplies, selApplies, attempt, scan, scanList, SelNode.applies,
+    simp [setStyling, applyRules, matching, ruleSpec, specificity, stableSort, insFront, hr, he, h1, ruleApplies, selApplies, attempt, scan, scanList, SelNode.applies,
       AttrSel.applies, setProps, setAttribute, attrCore, withSty, sty, applyPlain, applyStyle]
 
 theorem style_beats_rule (q : P α) (red blue lime : RGBA)
@@ -630,21 +673,19 @@ theorem style_beats_rule (q : P α) (red blue lime : RGBA)
     (setStyling o q [.style [("fill", .color lime)], .plain "fill" (.color red)]).ctx.fill = lime ∧
     (setStyling o q [.plain "fill" (.color red), .style [("fill", .color lime)]]).ctx.fill = lime := by
   constructor <;>
-    simp [setStyling, applyRules, hr, he, ruleApplies, selApplies, attempt, scan, scanList, SelNode.applies,
+    simp [setStyling, applyRules, matching, ruleSpec, specificity, stableSort, insFront, hr, he, ruleApplies, selApplies, attempt, scan, scanList, SelNode.applies,
       AttrSel.applies, setProps, setAttribute, attrCore, withSty, sty, applyPlain, applyStyle]
 
-/-- the remaining recorded deviation (known finding C19-css-specificity): matching rules are applied in
-order of appearance, so a later type rule `rect {fill: blue}` overrides an earlier class rule
-`.k {fill: red}` although the class selector is more specific -/
-theorem later_rule_wins (q : P α) (red blue : RGBA)
-    (hr : q.rules = [⟨[[⟨false, "", [⟨2, "class", "k"⟩]⟩]], [("fill", .color red)]⟩,
-                     ⟨[[⟨false, "rect", []⟩]], [("fill", .color blue)]⟩])
-    (he : q.elems = [⟨"rect", ["class"], [("class", "k")], [("class", ["k"])]⟩]) :
-    (setStyling o q []).ctx.fill = blue := by
-  have h1 : ∀ (p : P α) (c : RGBA), (setAttribute o p "fill" (.color c)).elems = p.elems := by
-    intro p c; simp [setAttribute, attrCore, withSty, sty, attrCore, withSty, sty]
-  simp [setStyling, applyRules, hr, he, h1, ruleApplies, selApplies, attempt, scan, scanList, SelNode.applies,
-    AttrSel.applies, setProps, setAttribute, attrCore, withSty, sty, attrCore, withSty, sty]
+/-- **specificity** (aecc30a): a class rule `.k {fill: red}` beats a type rule `rect {fill: blue}` on `<rect class="k">`
+in either order of appearance -/
+theorem more_specific_rule_wins (q : P α) (red blue : RGBA) (he : q.elems = [⟨"rect", ["class"], [("class", "k")], [("class", ["k"])]⟩]) :
+    (q.rules = [⟨[[⟨false, "", [⟨2, "class", "k"⟩]⟩]], [("fill", .color red)]⟩,
+                ⟨[[⟨false, "rect", []⟩]], [("fill", .color blue)]⟩] → (setStyling o q []).ctx.fill = red) ∧
+    (q.rules = [⟨[[⟨false, "rect", []⟩]], [("fill", .color blue)]⟩,
+                ⟨[[⟨false, "", [⟨2, "class", "k"⟩]⟩]], [("fill", .color red)]⟩] → (setStyling o q []).ctx.fill = red) := by
+  constructor <;> intro hr <;>
+    simp [setStyling, applyRules, matching, ruleSpec, specificity, stableSort, insFront, hr, he, ruleApplies, selApplies,
+      attempt, scan, scanList, SelNode.applies, AttrSel.applies, setProps, setAttribute, attrCore, withSty, sty]
 
 end Cascade
 
@@ -675,7 +716,7 @@ example : hasFill ({ defaultCtx (opsK cdId) with sw := 2 } : CState ℚ) = true 
     (∀ w off l len, cdId w off l len = (l, true)) := ⟨rfl, fun _ _ _ _ => rfl⟩
 -- fitViewBox_same: 200 x 100 viewport, viewBox 0 0 100 50
 example : (200 : ℚ) / 100 = 100 / 50 := by norm_num
--- cascade_refines_spec_partial: `rect {…}` before `.k {…}` on <rect class="k">: specificities 1 ≤ 1024
+-- stableSort_of_sorted: `rect {…}` before `.k {…}` on <rect class="k">: specificities 1 ≤ 1024
 example : (matching ([⟨[[⟨false, "rect", []⟩]], []⟩, ⟨[[⟨false, "", [⟨2, "class", "k"⟩]⟩]], []⟩] : List (Rule ℚ))
       [⟨"rect", ["class"], [("class", "k")], [("class", ["k"])]⟩]).Pairwise (fun a b => a.1 ≤ b.1) := by
   simp [matching, ruleSpec, ruleApplies, selApplies, attempt, scan, scanList, SelNode.applies, AttrSel.applies, specificity]
